@@ -975,7 +975,8 @@ class Renderer:
             after_ret = node["ret_ty"][1]
         else:
             after_ret = node["paren"][1]
-        where = self.t(after_ret, sig_b)
+        where = self.subst_assoc(self.t(after_ret, sig_b))      # `Self::Item` in a where clause of a trait method made inherent
+        params = self.subst_assoc(params)
         if self.moved_where:
             mw = self.moved_where.strip()
             where = (" " + mw) if not where.strip() else where.rstrip().rstrip(",") + ", " + re.sub(r"^where\s*", "", mw)
